@@ -111,20 +111,50 @@ def fam_strings(rec, rnd, thorough):
             if raw is not None and n <= cap:
                 rec.dec(t, raw, "fixedstr-dec")
                 rec.stream(t, raw, b"\x07\x07", "fixedstr-stream")
+        # the Logix string form: the character area is padded beyond the capacity; longer values are cut to the capacity
+        pad = (4 - cap % 4) % 4 or 4
+        tp = g.d_fixedstr(cap + pad, 4, capn=cap)
+        for n in sorted({0, cap - 1, cap, cap + 1, cap + pad, cap + pad + 1, cap + 7}):
+            if n < 0:
+                continue
+            v = g.text(rnd, n)
+            rec.enc(tp, v, "logix-string-enc")
+            if n <= cap:
+                raw = rec.rt(tp, v, "logix-string")
         # LEN field larger than the capacity, arbitrary padding bytes
         for ln in (cap, cap + 1, 1000):
             data = struct.pack("<I", ln) + bytes(rnd.randint(1, 255) for _ in range(cap))
             rec.dec(t, data, "fixedstr-len>cap")
 
 
+def do_enc(rec, t, v):
+    from .codec_engine import do_encode
+    return do_encode(rec.typ(t), t, v)
+
+
 def fam_composites(rec, rnd, thorough, n_types):
     """C06: random descriptor trees: round trip, stream consumption, dict == positional."""
+    # unnamed (reserved) members are left out of the value but take exactly their wire size
+    for el in g.elementary_alphabet() + [g.d_fixedstr(8, 4, capn=6), g.d_arr("fixed", g.d_int(2, 1), n=3),
+                                          g.d_struct([("p", g.d_int(1, 0)), ("q", g.d_str(1, 1))])]:
+        if el["k"] == "nbytes" and el["n"] == -1:
+            continue
+        for _ in range(2):
+            ve, vx = g.gen_value(el, rnd), rnd.randint(-30000, 30000)
+            _, raw_e = do_enc(rec, el, ve)
+            if raw_e is None:
+                continue
+            t = g.d_struct([("h", g.d_int(1, 0)), ("", el), ("x", g.d_int(2, 1))])
+            data = bytes([7]) + raw_e + struct.pack("<h", vx)
+            rec.dec(t, data, "unnamed-member")
+            rec.stream(t, data, b"\x11\x22", "unnamed-member-stream")
     for i in range(n_types):
         t = g.random_type(rnd, rnd.choice([1, 2, 2, 3, 3, 4] if thorough else [1, 2, 2, 3]))
         for _ in range(3):
             v = g.gen_value(t, rnd)
             raw = rec.rt(t, v, "composite-rt")
             rec.enc(t, v, "composite-enc")
+            rec.enc_kept(t, v, g.gen_value(t, rnd), "composite-enc-kept")
             if raw is None:
                 continue
             greedy = _greedy(t)
@@ -177,6 +207,7 @@ def fam_structtag(rec, rnd, thorough, n_types):
             v = g.gen_value(t, rnd)
             raw = rec.rt(t, v, "structtag-rt")
             rec.enc(t, v, "structtag-enc")
+            rec.enc_kept(t, v, g.gen_value(t, rnd), "structtag-enc-kept")
             data = bytes(rnd.getrandbits(8) for _ in range(t["size"]))
             rec.dec(t, data, "structtag-dec")
             rec.stream(t, data, b"\x55\x66", "structtag-stream")
